@@ -283,6 +283,8 @@ def install(eng):
 
     @reg(fractions.Fraction)
     def m_fraction(eng, st, args, kw):
+        if kw and set(kw) <= {"numerator", "denominator"} and len(args) + len(kw) <= 2:
+            args = list(args) + [kw[k_] for k_ in ("numerator", "denominator") if k_ in kw]
         if len(args) == 2:
             a, b = eng.lift(args[0], st), eng.lift(args[1], st)
             for st1, ta in ops._kind_cases(eng, SV(a), st):
